@@ -73,7 +73,7 @@ def check(chk, tier, seed):
         if rc != 0: res.violations.append((path, "replay tier: " + (out.strip() or err[-300:])))
     res.extra["replay_tier_cases"] = n
     count = 150 if tier == "quick" else 2000
-    subs = ["containers", "pca", "pls", "cpca", "select", "spline"]
+    subs = ["wrappers", "containers", "pca", "pls", "cpca", "select", "spline"]
     import concurrent.futures
     work = os.path.join(chk.BUILD, "tmp", "c20-%d" % os.getpid()); os.makedirs(work, exist_ok=True)
     def one(sub):
@@ -81,7 +81,7 @@ def check(chk, tier, seed):
         rc, so_, se_ = worker(chk, so, dump, ["--seed", str(seed), "--count", str(count if sub != "containers" else count * 2), "--out", out, "--work", w, "--only", sub])
         return sub, rc, se_, out, w
     layout_fields = 0
-    with concurrent.futures.ThreadPoolExecutor(6) as ex:
+    with concurrent.futures.ThreadPoolExecutor(7) as ex:
         for sub, rc, se_, out, w in ex.map(one, subs):
             if os.path.exists(out):
                 st = json.load(open(out)); layout_fields = max(layout_fields, st.get("layout_fields", 0))
